@@ -423,6 +423,15 @@ func init() {
 				}
 			}
 		},
+		// vPreemptOn / vPreemptOff: the phase of the harness in which pre-emptions are explored (param Pgate=1
+		// starts with them off, so that set-up code does not consume the budget)
+		"H.vPreemptOn":  func(e *Exec, th *Thread, a []Value) Value { e.preemptOff = false; return nil },
+		"H.vPreemptOff": func(e *Exec, th *Thread, a []Value) Value { e.preemptOff = true; return nil },
+		// vSchedPolicy(n): 0 = deterministic thread choice, 1 = every runnable thread is explored at blocking points
+		"H.vSchedPolicy": func(e *Exec, th *Thread, a []Value) Value {
+			e.schedPolicy = e.concInt(a[0].(*Term), "sched policy")
+			return nil
+		},
 		"H.vSpins": func(e *Exec, th *Thread, a []Value) Value { return IntC(int64(e.spins)) },
 		"H.vThreadsLive": func(e *Exec, th *Thread, a []Value) Value {
 			n := 0
